@@ -21,6 +21,14 @@ CLAIMED["C15"] = dict(
    text="Decoder: the body of the real map_games loop is run once from an arbitrary mutually consistent plan (entries -n..n, no self-play) with an arbitrary game code; the solver shows that the game lands on the earliest day on which both teams are free, that exactly the two cells are written consistently, that nothing else changes and that the invariant is kept (n<=8, rounds<=2 quick; n<=12, rounds<=4 thorough); the real prefix zeroes arbitrary garbage; whole-run cross-check against a declaratively defined plan for small sizes. Search space: counting properties of the real blueprint for enumerated (n, rounds) - configuration enumeration, labelled as such.",
    note="Trusted: z3, array shim; lifting the step to whole decodings is loop induction (cross-checked by whole-run queries at (2,2),(3,1),(3,2)). The search-space half is enumeration of configurations, not a solver verdict.",
    design="4/C15")
+CLAIMED["C01"] = dict(
+   text="Whole decoders through the public API (Encoding(instance).decode(x, y)) for every signed permutation with repetition of up to 3 (thorough 4) items, with bin and item sizes fully symbolic in 1..10^12 (so every storage type int8..int64 and its edges is inside one query family), instance built by the real constructor run symbolically, destination packing and scratch arrays starting as arbitrary garbage; the solver shows the decoded rows satisfy an independent declarative feasibility oracle (ids/multiplicities, orientation, inside the bin, pairwise disjoint per bin, bins 1..k, count k). Every array store carries a fits-the-dtype obligation. A separate job shows the real constructor accepts exactly the documented instance domain.",
+   note="Trusted: z3; numpy/numba model (self-test against the compiled encoders per run; every counterexample replayed through the real public API in a fresh interpreter with a time limit, non-termination counts as violation). Quick tier enumerates permutations up to relabelling of interchangeable item rows. Outside: more than 3 (4) items.",
+   design="4/C01")
+CLAIMED["C04"] = dict(
+   text="PackingSpace.validate run natively on a symbolic instance (real constructor) and an arbitrary integer matrix of the packing shape (every cell any value of the instance dtype, n_bins 0..rows+1), up to 2 (thorough 3) rows: on every accepting path the solver shows the declarative feasibility oracle holds, on every rejecting path that it fails; type/shape/dtype/instance-identity clauses on four concrete configurations of the real code.",
+   note="Trusted: z3; array shim; check_int_range re-implemented from its documentation. Outside: more rows; the text round trip is claimed under C19. Two genuine defects found by this check were repaired (see known_findings.json).",
+   design="4/C04")
 NA = {
  "C12": "quantifies over complete optimisation runs (moptipy Execution/Process, RNG streams, log files, budgets): no bounded symbolic encoding within reach; its solver-decidable ingredients are claimed under C01, C02, C04-C06, C19",
 }
